@@ -65,10 +65,24 @@ type c19Priv struct {
 	Privilege string `json:"privilege"`
 }
 
+// c19Ref: one *Measurement node reachable from a statement, found by a reflection walk over the AST value (independent of
+// Sources.RequiredPrivileges and of influxql.Walk, which are code under test).
+type c19Ref struct {
+	Database string `json:"db"`
+	RP       string `json:"rp,omitempty"`
+	Name     string `json:"name,omitempty"`
+	Regex    bool   `json:"regex,omitempty"`
+	Role     string `json:"role"` // "read" | "write" (below a field named Target)
+	Path     string `json:"path"` // source position, e.g. SelectStatement.Sources>Join.RSrc>Measurement
+}
+
 type c19Stmt struct {
-	Type  string    `json:"type"`
-	Privs []c19Priv `json:"privs"`
-	Error string    `json:"error,omitempty"`
+	Type        string    `json:"type"`
+	Privs       []c19Priv `json:"privs"`
+	Error       string    `json:"error,omitempty"`
+	Refs        []c19Ref  `json:"refs"`
+	SourceKinds []string  `json:"source_kinds"`
+	JoinTypes   []string  `json:"join_types"`
 }
 
 type c19Example struct {
@@ -79,6 +93,8 @@ type c19Example struct {
 
 type c19Out struct {
 	Configs        map[string][]c19Route `json:"configs"`
+	SourceTypes    []string              `json:"source_types"`
+	JoinTypes      []string              `json:"join_types"`
 	StatementTypes []string              `json:"statement_types"`
 	Examples       []c19Example          `json:"examples"`
 	SharedSecret   string                `json:"default_shared_secret"`
@@ -252,6 +268,107 @@ func c19ExprString(e ast.Expr) string {
 }
 
 // c19StatementTypes: receiver types of every method named RequiredPrivileges in the influxql package source.
+// c19Receivers: receiver type names of every method called `method` in the package source (go/ast).
+func c19Receivers(dir, method string) ([]string, error) {
+	fset := token.NewFileSet()
+	pkgs, err := parser.ParseDir(fset, dir, func(fi os.FileInfo) bool {
+		return !strings.HasSuffix(fi.Name(), "_test.go") && !strings.HasPrefix(fi.Name(), "zz_verif_")
+	}, 0)
+	if err != nil {
+		return nil, err
+	}
+	set := map[string]bool{}
+	for _, pkg := range pkgs {
+		for _, f := range pkg.Files {
+			for _, d := range f.Decls {
+				fd, ok := d.(*ast.FuncDecl)
+				if !ok || fd.Recv == nil || fd.Name.Name != method || len(fd.Recv.List) != 1 {
+					continue
+				}
+				typ := fd.Recv.List[0].Type
+				if st, ok := typ.(*ast.StarExpr); ok {
+					typ = st.X
+				}
+				if id, ok := typ.(*ast.Ident); ok {
+					set[id.Name] = true
+				}
+			}
+		}
+	}
+	var out []string
+	for k := range set {
+		out = append(out, k)
+	}
+	sort.Strings(out)
+	return out, nil
+}
+
+var c19SourceIface = reflect.TypeOf((*influxql.Source)(nil)).Elem()
+var c19MeasurementType = reflect.TypeOf(influxql.Measurement{})
+
+// c19WalkRefs visits every value reachable from v through struct fields (exported or not), pointers, interfaces, slices
+// and maps, and records Measurement nodes, Source node kinds and join types.
+func c19WalkRefs(v reflect.Value, path string, role string, seen map[uintptr]bool, st *c19Stmt, depth int) {
+	if depth > 64 {
+		return
+	}
+	switch v.Kind() {
+	case reflect.Interface:
+		if !v.IsNil() {
+			c19WalkRefs(v.Elem(), path, role, seen, st, depth+1)
+		}
+	case reflect.Ptr:
+		if v.IsNil() {
+			return
+		}
+		if seen[v.Pointer()] {
+			return
+		}
+		seen[v.Pointer()] = true
+		name := v.Type().Elem().Name()
+		if v.Type().Implements(c19SourceIface) {
+			st.SourceKinds = append(st.SourceKinds, name)
+		}
+		if v.Type().Elem() == c19MeasurementType {
+			e := v.Elem()
+			ref := c19Ref{Database: e.FieldByName("Database").String(), RP: e.FieldByName("RetentionPolicy").String(),
+				Name: e.FieldByName("Name").String(), Role: role, Path: path + ">Measurement"}
+			if rx := e.FieldByName("Regex"); rx.IsValid() && rx.Kind() == reflect.Ptr && !rx.IsNil() {
+				ref.Regex = true
+			}
+			st.Refs = append(st.Refs, ref)
+			return
+		}
+		if name == "Join" {
+			if jt := v.Elem().FieldByName("JoinType"); jt.IsValid() {
+				st.JoinTypes = append(st.JoinTypes, influxql.JoinTypeMap[influxql.JoinType(jt.Int())])
+			}
+		}
+		c19WalkRefs(v.Elem(), path, role, seen, st, depth+1)
+	case reflect.Struct:
+		t := v.Type()
+		for i := 0; i < v.NumField(); i++ {
+			f := t.Field(i)
+			r := role
+			if f.Name == "Target" {
+				r = "write"
+			}
+			switch v.Field(i).Kind() {
+			case reflect.Interface, reflect.Ptr, reflect.Slice, reflect.Map, reflect.Struct, reflect.Array:
+				c19WalkRefs(v.Field(i), path+">"+t.Name()+"."+f.Name, r, seen, st, depth+1)
+			}
+		}
+	case reflect.Slice, reflect.Array:
+		for i := 0; i < v.Len(); i++ {
+			c19WalkRefs(v.Index(i), path, role, seen, st, depth+1)
+		}
+	case reflect.Map:
+		for _, k := range v.MapKeys() {
+			c19WalkRefs(v.MapIndex(k), path, role, seen, st, depth+1)
+		}
+	}
+}
+
 func c19StatementTypes(dir string) ([]string, error) {
 	fset := token.NewFileSet()
 	pkgs, err := parser.ParseDir(fset, dir, func(fi os.FileInfo) bool {
@@ -313,7 +430,15 @@ func c19ParseExample(text string) (ex c19Example) {
 		for ty.Kind() == reflect.Ptr {
 			ty = ty.Elem()
 		}
-		one := c19Stmt{Type: ty.Name(), Privs: []c19Priv{}}
+		one := c19Stmt{Type: ty.Name(), Privs: []c19Priv{}, Refs: []c19Ref{}, SourceKinds: []string{}, JoinTypes: []string{}}
+		func() {
+			defer func() {
+				if e := recover(); e != nil {
+					one.Error = fmt.Sprint("reference walk: ", e)
+				}
+			}()
+			c19WalkRefs(reflect.ValueOf(st), "", "read", map[uintptr]bool{}, &one, 0)
+		}()
 		privs, err := st.RequiredPrivileges()
 		if err != nil {
 			one.Error = "RequiredPrivileges: " + err.Error()
@@ -375,6 +500,15 @@ func TestVerifC19(t *testing.T) {
 		t.Fatalf("statement types: %v", err)
 	}
 	rep.Count("statement_types", int64(len(out.StatementTypes)))
+	out.SourceTypes, err = c19Receivers(qlDir, "source")
+	if err != nil {
+		t.Fatalf("source types: %v", err)
+	}
+	for jt, name := range influxql.JoinTypeMap {
+		_ = jt
+		out.JoinTypes = append(out.JoinTypes, name)
+	}
+	sort.Strings(out.JoinTypes)
 
 	if exPath := os.Getenv("VERIF_C19_EXAMPLES"); exPath != "" {
 		b, err := os.ReadFile(exPath)
